@@ -13,6 +13,10 @@ from auditok.core import StreamTokenizer  # noqa: E402
 from auditok.util import DataSource, DataValidator, StringDataSource  # noqa: E402
 
 KINDS = ("obj", "char", "bytes", "int")
+# kinds used by the generated (not the exhaustive) cases in addition: "np" (numpy-bool verdicts), "nparr"
+# (numpy array frames), "emptysil" (silent frames are empty bytes objects), "stateful" (a validator
+# whose answer depends on how many frames it has judged)
+MORE_KINDS = ("np", "nparr", "emptysil", "stateful")
 DELIVS = ("list", "gen", "cb")
 
 
@@ -48,6 +52,38 @@ class ListSource(DataSource):
         return f
 
 
+class DuckSource:
+    """Same as ListSource without inheriting from DataSource (any object with read() is a source)."""
+
+    def __init__(self, frames):
+        self.frames = frames
+        self.pos = 0
+        self.reads = 0
+        self.none_returns = 0
+
+    read = ListSource.read
+
+
+class CountingValidator(DataValidator):
+    """A validator with a memory (think of an adaptive threshold): its k-th answer is the k-th bit of
+    the pattern.  It is only meaningful if every frame is judged once, in stream order - which is
+    what a validator that depends on earlier calls needs from the tokenizer."""
+
+    def __init__(self, frames):
+        self.frames = frames
+        self.k = 0
+        self.out_of_order = None
+
+    def is_valid(self, frame):
+        k = self.k
+        self.k += 1
+        if k >= len(self.frames) or frame is not self.frames[k]:
+            if self.out_of_order is None:
+                self.out_of_order = (k, repr(frame))
+            return False
+        return frame.bit
+
+
 class UpperValidator(DataValidator):
     def is_valid(self, frame):
         return frame.isupper()
@@ -73,27 +109,44 @@ def np_valid(frame):
     return np.bool_(frame.bit)
 
 
-def make_stream(pat, kind):
+def make_stream(pat, kind, src="ds"):
     """-> (frames, validator, source).  frames[i] is what position i holds."""
+    Source = DuckSource if src == "duck" else ListSource
     if kind in ("obj", "np"):
         frames = [Frame(i, c == "1") for i, c in enumerate(pat)]
-        return frames, (obj_valid if kind == "obj" else np_valid), ListSource(frames)
+        return frames, (obj_valid if kind == "obj" else np_valid), Source(frames)
+    if kind == "stateful":
+        frames = [Frame(i, c == "1") for i, c in enumerate(pat)]
+        return frames, CountingValidator(frames), Source(frames)
+    if kind == "nparr":
+        import numpy as np
+
+        frames = [np.array([1 if c == "1" else 0, i & 0x7FFF, 7], dtype=np.int16) for i, c in enumerate(pat)]
+        return frames, (lambda f: f[0] == 1), Source(frames)
+    if kind == "emptysil":
+        # silent frames are empty (a source that has nothing to hand out right now): still frames
+        frames = [bytes([1, i & 255]) if c == "1" else (b"" if i % 2 else bytearray()) for i, c in enumerate(pat)]
+        return frames, (lambda f: len(f) > 0), Source(frames)
     if kind == "char":
         frames = ["A" if c == "1" else "a" for c in pat]
         return frames, UpperValidator(), StringDataSource("".join(frames))
     if kind == "bytes":
         frames = [bytes([1 if c == "1" else 0, i & 255]) for i, c in enumerate(pat)]
-        return frames, ByteValidator(), ListSource(frames)
+        return frames, ByteValidator(), Source(frames)
     if kind == "int":
         # frames that are falsy objects (0) must still be frames, not "end of stream"
         frames = [1 if c == "1" else 0 for c in pat]
-        return frames, int_valid, ListSource(frames)
+        return frames, int_valid, Source(frames)
     raise HarnessError(f"unknown frame kind {kind}")
 
 
 def frame_valid(frame, kind):
-    if kind in ("obj", "np"):
+    if kind in ("obj", "np", "stateful"):
         return frame.bit
+    if kind == "nparr":
+        return bool(frame[0] == 1)
+    if kind == "emptysil":
+        return len(frame) > 0
     if kind == "char":
         return frame.isupper()
     if kind == "int":
@@ -151,11 +204,13 @@ def prepare(case):
     generator advanced k items and abandoned): every tokenizer property must
     hold for such a tokenizer as well."""
     kind = case.get("kind", "obj")
-    frames, validator, source = make_stream(case["pat"], kind)
-    tk = make_tokenizer(validator, case["p"])
     pre = case.get("pre")
+    if kind == "stateful" and pre:
+        kind = "obj"  # (a validator with a memory is paired with a single stream)
+    frames, validator, source = make_stream(case["pat"], kind, case.get("src", "ds"))
+    tk = make_tokenizer(validator, case["p"])
     if pre:
-        _f0, _v0, s0 = make_stream(pre["pat"], kind)
+        _f0, _v0, s0 = make_stream(pre["pat"], kind, case.get("src", "ds"))
         how = pre.get("how", "list")
         if how == "list":
             earlier = tk.tokenize(s0)
